@@ -17,7 +17,8 @@ pub const IDENTS: u8 = 5;
 pub enum Op {
     /// open a connection in `slot`; `reuse_of`: bind the port last used by that slot (its connection is reset first)
     /// `dead`: the record names a destination nobody listens on, so the proxy's own connect to the host fails at accept time
-    Open { slot: u8, reuse_of: Option<u8>, record: Option<u8>, #[serde(default)] dead: bool },
+    /// `idle`: no request is sent right after connecting (the record must be consumed at accept all the same)
+    Open { slot: u8, reuse_of: Option<u8>, record: Option<u8>, #[serde(default)] dead: bool, #[serde(default)] idle: bool },
     Request { slot: u8, only: u8 },
     /// the kernel writes a new record for the slot's port while its connection is still open
     Overwrite { slot: u8, ident: u8 },
@@ -32,7 +33,7 @@ pub struct Case {
 
 fn op() -> impl Strategy<Value = Op> {
     prop_oneof![
-        4 => (0u8..4, prop::option::weighted(0.55, 0u8..4), prop::option::weighted(0.6, 0u8..IDENTS), prop::bool::weighted(0.15)).prop_map(|(slot, reuse_of, record, dead)| Op::Open { slot, reuse_of, record, dead }),
+        4 => (0u8..4, prop::option::weighted(0.55, 0u8..4), prop::option::weighted(0.6, 0u8..IDENTS), prop::bool::weighted(0.15), prop::bool::weighted(0.25)).prop_map(|(slot, reuse_of, record, dead, idle)| Op::Open { slot, reuse_of, record, dead, idle }),
         6 => (0u8..4, 0u8..IDENTS).prop_map(|(slot, only)| Op::Request { slot, only }),
         2 => (0u8..4, 0u8..IDENTS).prop_map(|(slot, ident)| Op::Overwrite { slot, ident }),
         2 => (0u8..4).prop_map(|slot| Op::Close { slot }),
@@ -44,7 +45,7 @@ pub fn strategy() -> impl Strategy<Value = Case> {
     prop::collection::vec(op(), 1..24).prop_map(|ops| Case { ops })
 }
 
-pub const RULE: &str = "generator: histories (1-23 ops) over 4 connection slots and 5 identities: Open{fresh port | the port last used by a slot (that connection is reset with SO_LINGER 0 first and the new socket binds the same port), in 15% of the attributed opens the record names an unreachable destination so that the proxy's own connect to the host fails at accept time, with a record for identity k or without}, Request{slot, /only/<j>}, Overwrite{slot's port gets a new record while its connection is open}, Close, Batch{2-8 connections opened concurrently from threads, each with its own identity}. Identities differ in uid (generated passwd), process (helper executables) and elevation; the IMDS rule set (enforce, default deny) grants /only/<k> to identity k only, so every decision identifies whose claims were used, and the forwarded claims header gives the elevation bit. oracle: model port -> pending record; at accept the record moves to the connection and leaves the map (trace shows lookup then remove; the stand-in map has no entry for the port afterwards); every request on a connection is decided with that connection's identity regardless of later overwrites; a connection from a reused port without a fresh record gets 421 on every request. non-trivial: history with a port reuse without a fresh record after an attributed connection, or >= 2 requests on one connection with an overwrite in between, or a batch >= 4; distinct by hash of the history.";
+pub const RULE: &str = "generator: histories (1-23 ops) over 4 connection slots and 5 identities: Open{fresh port | the port last used by a slot (that connection is reset with SO_LINGER 0 first and the new socket binds the same port), a quarter of the opens stay idle (no request follows the connect: the record must be consumed at accept all the same, within 5 s), in 15% of the attributed opens the record names an unreachable destination so that the proxy's own connect to the host fails at accept time, with a record for identity k or without}, Request{slot, /only/<j>}, Overwrite{slot's port gets a new record while its connection is open}, Close, Batch{2-8 connections opened concurrently from threads, each with its own identity}. Identities differ in uid (generated passwd), process (helper executables) and elevation; the IMDS rule set (enforce, default deny) grants /only/<k> to identity k only, so every decision identifies whose claims were used, and the forwarded claims header gives the elevation bit. oracle: model port -> pending record; at accept the record moves to the connection and leaves the map (trace shows lookup then remove; the stand-in map has no entry for the port afterwards); every request on a connection is decided with that connection's identity regardless of later overwrites; a connection from a reused port without a fresh record gets 421 on every request. non-trivial: history with a port reuse without a fresh record after an attributed connection, or >= 2 requests on one connection with an overwrite in between, or a batch >= 4; distinct by hash of the history.";
 
 pub fn ident_rec(k: u8) -> Rec {
     Rec { uid_sel: k % IDENTS, helper_sel: k % IDENTS, is_root: k % IDENTS == 0, dest: DestSel::Imds }
@@ -133,7 +134,7 @@ pub fn eval(rig: &Rig, case: &Case, stats: &mut Stats) -> Outcome {
     let mut nontrivial = false;
     for (step, op) in case.ops.iter().enumerate() {
         match op {
-            Op::Open { slot, reuse_of, record, dead } => {
+            Op::Open { slot, reuse_of, record, dead, idle } => {
                 let s = *slot as usize % 4;
                 if let Some(c) = slots[s].conn.take() {
                     crate::rawhttp::close_abortive(c.stream);
@@ -206,14 +207,31 @@ pub fn eval(rig: &Rig, case: &Case, stats: &mut Stats) -> Outcome {
                 }
                 slots[s] = Slot { dead, conn: Some(conn), port: p, identity, had_attributed_before: identity.is_some(), requests_since_open: 0, overwritten_since_open: false };
                 // first request: also proves that accept processing is over
-                let probe = identity.unwrap_or(0);
-                let r = if dead { request_on_dead(rig, slots[s].conn.as_mut().unwrap(), probe) } else { request_on(rig, slots[s].conn.as_mut().unwrap(), identity, probe) };
-                if let Err((sig, d)) = r {
-                    return Outcome::fail(sig, format!("step {} {:?}: {}", step, op, d));
+                let mut pre_trace: Vec<TraceOp> = Vec::new();
+                if *idle {
+                    // an idle connection: accept processing has to finish on its own (no request will ever prove it):
+                    // wait until the listener has looked the port up (and, for an attributed one, removed the record)
+                    stats.class("open:idle-connection-without-a-first-request");
+                    let t0 = std::time::Instant::now();
+                    loop {
+                        pre_trace.extend(verif_hooks::take_trace());
+                        let looked = pre_trace.iter().any(|t| matches!(t, TraceOp::Lookup { port, .. } if *port == p));
+                        let removed = pre_trace.iter().any(|t| matches!(t, TraceOp::Remove { port, .. } if *port == p));
+                        if (looked && (identity.is_none() || removed)) || t0.elapsed() > Duration::from_millis(5000) {
+                            break;
+                        }
+                        std::thread::sleep(Duration::from_millis(1));
+                    }
+                } else {
+                    let probe = identity.unwrap_or(0);
+                    let r = if dead { request_on_dead(rig, slots[s].conn.as_mut().unwrap(), probe) } else { request_on(rig, slots[s].conn.as_mut().unwrap(), identity, probe) };
+                    if let Err((sig, d)) = r {
+                        return Outcome::fail(sig, format!("step {} {:?}: {}", step, op, d));
+                    }
+                    slots[s].requests_since_open += 1;
                 }
-                slots[s].requests_since_open += 1;
                 // trace and map
-                let trace: Vec<TraceOp> = verif_hooks::take_trace().into_iter().filter(|t| matches!(t, TraceOp::Lookup { port, .. } | TraceOp::Remove { port, .. } if *port == p)).collect();
+                let trace: Vec<TraceOp> = pre_trace.into_iter().chain(verif_hooks::take_trace()).filter(|t| matches!(t, TraceOp::Lookup { port, .. } | TraceOp::Remove { port, .. } if *port == p)).collect();
                 let want: Vec<TraceOp> = if identity.is_some() { vec![TraceOp::Lookup { port: p, found: true }, TraceOp::Remove { port: p, found: true }] } else { vec![TraceOp::Lookup { port: p, found: false }] };
                 if trace != want {
                     return Outcome::fail("attribution:record-not-consumed-at-accept", format!("step {} {:?}: port {} trace {:?}, expected {:?}", step, op, p, trace, want));
